@@ -97,6 +97,10 @@ def gen_case(rng: random.Random, zero_p=0.08):
         budget = F(1)
     ballots = core.gen_ballots(r, "app", names, n, n)
     ballots = [sorted(b) for b in ballots]
+    if n >= 3 and r.random() < 0.3:
+        # two voters with IDENTICAL ballots and a third one alone on some project (forces the common voter budget up)
+        ballots[1] = list(ballots[0])
+        ballots[2] = [r.choice(names)]
     return Case(projects, budget, "app", ballots, seed=sub)
 
 
@@ -457,9 +461,14 @@ def one_search(ctx, box, case: Case, W, stable, exhaustive, part="search"):
         return None
     success = ans["status"] in ("OPTIMAL", "FEASIBLE")
     if success and mip_violation(case, ans, stable, exhaustive, searched) > TOL:
-        ctx.solver_faults += 1
+        # the returned point violates the conditions of a price system: a CBC hiccup when isolated (a few per 100 000 calls),
+        # a defect of the search when it happens repeatedly in one run (see settle_suspects)
         ctx.count("solver_fault", "point_violates_model")
         fault_sample(ctx, case, cfg, ans, M, D)
+        ctx.extra.setdefault("_suspects", []).append({
+            "what": f"priceable reports success for allocation {W} with a price system that violates the price-system conditions "
+                    f"(exact oracle: a price system {'exists' if D else 'does not exist'})", "case": case.to_json(), "cfg": cfg,
+            "impl": ans.get("status"), "expected": D, "sig": dict(sig, kind="returned_system_invalid")})
         return None
     if success != M:
         # either CBC is wrong about the model it was given (a solver fault: isolated, discarded) or the library no longer
@@ -570,6 +579,9 @@ def settle_suspects(ctx, threshold=3):
     three or more in one run are a systematic disagreement between the library's search and the definition -> violations"""
     sus = ctx.extra.pop("_suspects", [])
     ctx.extra["search_vs_oracle_suspects"] = len(sus)
+    calls = sum(ctx.dist.get("search_mode", {}).values()) if isinstance(ctx.dist.get("search_mode"), dict) else 0
+    threshold = max(threshold, calls // 4000)  # observed CBC hiccup rate on the unchanged tree: about 4 per 100 000 calls
+    ctx.extra["search_vs_oracle_threshold"] = threshold
     if len(sus) >= threshold:
         ctx.violations.extend(sus[:20])
     else:
